@@ -489,6 +489,31 @@ def graph_labels(ctx, g):
             pushed = [x[1] for x in pushed if x[0] == "str"]
             if MIR not in pushed:
                 bad = "orbifold_graph labels mirror chambers %s, orbit_type_1d labels mirror orbits %r" % (pushed, MIR)
+            # a mirror node for every (i, d) with op(i, d) == Some(d), i over all four operations 0..=3, d over all chambers
+            for bi, t in og.calls("ToString::to_string"):
+                if strip(norm(og.origin(t["args"][0]), g)) != ("str", MIR) or bad:
+                    continue
+                fa = [atom_norm(x, g) for x in og.facts_at(bi)]
+                fixed = None
+                for x in fa:
+                    if x[0] == "bool" and x[2] and is_call(strip(x[1]), "PartialEq::eq"):
+                        l_, r_ = [strip(z) for z in strip(x[1])[2]]
+                        for u, v in ((l_, r_), (r_, l_)):
+                            if is_call(u, "DSet::op") and v[0] == "agg" and v[1].endswith("Option::Some") and strip(v[2][0]) == strip(u[2][2]):
+                                fixed = u
+                    if x[0] == "rel" and x[1] == "Eq":
+                        for u, v in ((strip(x[2]), strip(x[3])), (strip(x[3]), strip(x[2]))):
+                            if is_call(u, "DSet::op") and v[0] == "agg" and v[1].endswith("Option::Some") and strip(v[2][0]) == strip(u[2][2]):
+                                fixed = u
+                if fixed is None:
+                    bad = "a mirror node is not created exactly under op(i, d) == Some(d)"
+                else:
+                    ri, rd = loop_range_of_payload(og, fixed[2][1], g), loop_range_of_payload(og, fixed[2][2], g)
+                    oki = ri is not None and eval_int(ri[0]) == 0 and eval_int(ri[1]) is not None and eval_int(ri[1]) + (1 if ri[2] else 0) == 4
+                    okd = rd is not None and eval_int(rd[0]) == 1 and rd[2] and (is_call(strip(rd[1]), "::size") or (strip(rd[1])[0] == "field" and strip(rd[1])[2] == "size"))
+                    if not (oki and okd):
+                        bad = "mirror nodes are not searched over all four operations 0..=3 and all chambers 1..=size(): %s, %s" % (
+                            ri and (show(ri[0], 1), show(ri[1], 1), ri[2]), rd and (show(rd[0], 1), show(rd[1], 1)[:20], rd[2]))
             # node creation: under ne(t, PLAIN) true
             tests = []
             for bi, t in og.calls():
